@@ -374,5 +374,15 @@ def run(ctx):
               "fresh XL history is not m cloned copies of the converged density")
     if ptdef:
         ctrl = controlling(md, ptdef[0])
-        ctx.check(any((not p) and norm(a).replace(" ", "") == "self.step_offset>0" for a, p, _ in ctrl), "R5", md, ptdef[0], "XL_BOMD.initialize", ptdef[0],
-                  "history is not rebuilt when resuming", "XL history is rebuilt on resume")
+        conds = sorted((norm(a).replace(" ", ""), p) for a, p, _ in ctrl)
+        ctx.check(conds == [("self.step_offset>0", False)], "R5", md, ptdef[0], "XL_BOMD.initialize", ptdef[0],
+                  "history is rebuilt exactly when the run is fresh (step_offset == 0): every run() that restarts its step counter also resets the buffer phase",
+                  f"XL history initialisation is controlled by {conds} instead of exactly `not (self.step_offset > 0)`: a run that starts its step "
+                  f"counter at 0 can keep a buffer rotated by an earlier run (coefficients paired with the wrong history ages) or a resumed run can lose its history")
+    store = [st for st in ast.walk(xi) if isinstance(st, ast.Assign) and norm(st.targets[0]) == "self._xl_ctx"]
+    ctx.check(len(store) == 1 and norm(store[0].value) == "ctx", "R5", md, xi, "XL_BOMD.initialize", "self._xl_ctx = ctx", "fresh context replaces any previous one",
+              "self._xl_ctx store changed")
+    # XL forces: same force assembly discipline as the SCF path (shared with C01)
+    ctx.rule("R6", "XL force assembly: force = -dL/dx of the XL Hf, gradient buffer zeroed after each read")
+    from ..forcerules import check_force_assembly
+    check_force_assembly(ctx, "R6", which=("seqm/dynamics/xlbomd.py::ForceXL.forward",))
